@@ -46,6 +46,13 @@ pub fn horizon(s: &Spec) -> Option<usize> {
     Some(own.ceil() as usize + inner)
 }
 
+/// "Geometrically" means the recovery time grows with the logarithm of the size of the perturbation: the
+/// horizons of `horizon()` are calibrated for perturbations up to 1e3 S; beyond that they are stretched by
+/// one third per decade (ratio 1e12: x4).
+pub fn horizon_stretch(ratio: f64) -> f64 {
+    1.0 + (ratio.max(1.0).log10() - 3.0).max(0.0) / 3.0
+}
+
 /// analytic output bound for the ratio-type views (plus slack), None for linear ones
 fn ratio_bound(k: K) -> Option<f64> {
     match k {
@@ -105,8 +112,8 @@ struct Rec {
 }
 
 /// run two replicas over their prefixes and the common tail; compare in [T, 2T]
-fn recovery(spec: &Spec, pa: &[f64], pb: &[f64], tail: &[f64], floor: f64, tol: f64) -> Result<Rec, &'static str> {
-    let t_h = horizon(spec).ok_or("no_horizon")?;
+fn recovery(spec: &Spec, pa: &[f64], pb: &[f64], tail: &[f64], floor: f64, tol: f64, stretch: f64) -> Result<Rec, &'static str> {
+    let t_h = (horizon(spec).ok_or("no_horizon")? as f64 * stretch).ceil() as usize;
     let mut ctx = Ctx::default();
     let mut a = try_build::<f64>(spec, &mut ctx).map_err(|_| "ctor_rejected")?;
     let mut b = try_build::<f64>(spec, &mut ctx).map_err(|_| "ctor_rejected")?;
@@ -244,7 +251,7 @@ impl Prop for C09 {
         while horizon(&tree).unwrap_or(0) > 60_000 {
             tree = gen_recursive(r, k, Spec::echo());
         }
-        let s_scale = *r.pick(&[1e-3, 1e-2, 0.1, 1.0, 1.0, 1.0, 10.0, 100.0, 1e3]);
+        let s_scale = *r.pick(&[1e-3, 1e-2, 0.1, 1.0, 1.0, 1.0, 10.0, 100.0, 1e3, 1e-12, 1e-9, 1e-6, 1e6, 1e9]);
         if bounded {
             let len = match tier {
                 Tier::Quick => {
@@ -272,6 +279,9 @@ impl Prop for C09 {
             let tail_shape: u8 = if !any_ratio && r.chance(0.15) { 4 } else { *r.pick(&[12u8, 1, 9, 12]) };
             // "and stays there": 1.5% of the tails run on for thousands to a million deliveries after 2T
             let extra_tail = if r.chance(0.015) { crate::feed::long_len(r) } else { 0 };
+            // mostly up to 500 S; in 15% of the runs a burst of 1e6..1e12 S (the horizon grows with the logarithm of it)
+            let spike: f64 = if r.chance(0.15) { *r.pick(&[1e6, 1e9, 1e12]) / 2.0 } else { *r.pick(&[10.0, 100.0, 1000.0]) / 2.0 };
+            let t_h = (t_h as f64 * horizon_stretch(spike.max(2.0))).ceil() as usize;
             let u = gen_shape(r, tail_shape, 2 * t_h + 2 + extra_tail, 1.0, false);
             let noise = if tail_shape == 9 { 0.05 } else { 0.0 };
             let tail: Vec<f64> = u.iter().map(|x| s_scale * (1.25 + 0.375 * x + noise * (r.unit() - 0.5)).clamp(0.5, 2.0)).collect();
@@ -279,7 +289,6 @@ impl Prop for C09 {
             let base_len = r.range(0, 400);
             let shape = r.below(SHAPES.len()) as u8;
             let base = gen_shape(r, shape, base_len, s_scale, false);
-            let spike = *r.pick(&[10.0, 100.0, 1000.0]) / 2.0;
             let ca = FaultCfg::swarm(r, 300, spike);
             let cb = FaultCfg::swarm(r, 300, spike);
             let (pa, fa) = apply_faults(r, &base, &ca, s_scale, false);
@@ -334,7 +343,7 @@ impl Prop for C09 {
             return out;
         }
         let s_scale = sc.int("s_scale_bits").map(|b| f64::from_bits(b as u64)).unwrap_or(1.0);
-        if !(s_scale.is_finite() && s_scale > 0.0 && s_scale <= 1e4) {
+        if !(s_scale.is_finite() && s_scale > 0.0 && s_scale <= 1e10) {
             out.invalid = Some("scale".into());
             return out;
         }
@@ -356,10 +365,17 @@ impl Prop for C09 {
                 };
                 // domain: finite, prefixes bounded by 1e3*S, tail inside [S/2, 2S] and long enough
                 let any_ratio = spec.any(&|x| is_ratio(x.k));
-                if pa.iter().chain(pb.iter()).any(|x| !x.is_finite() || x.abs() > 1.0e3 * s_scale * 1.001) {
-                    out.invalid = Some("prefix value outside [-1e3 S, 1e3 S]".into());
+                if pa.iter().chain(pb.iter()).any(|x| !x.is_finite() || x.abs() > 1.0e12 * s_scale * 1.001) {
+                    out.invalid = Some("prefix value outside [-1e12 S, 1e12 S]".into());
                     return out;
                 }
+                // the larger the perturbation, the longer the (logarithmically stretched) horizon
+                let ratio = pa.iter().chain(pb.iter()).fold(1.0f64, |m, x| m.max(x.abs() / s_scale));
+                let stretch = horizon_stretch(ratio);
+                if stretch > 1.0 {
+                    out.stats.hit("reach.perturbation_above_1e3_S");
+                }
+                let t_h = (t_h as f64 * stretch).ceil() as usize;
                 if tail.len() < 2 * t_h || tail.iter().any(|x| !x.is_finite() || *x < 0.5 * s_scale || *x > 2.0 * s_scale) {
                     out.invalid = Some("tail must have >= 2T values inside [S/2, 2S]".into());
                     return out;
@@ -372,7 +388,7 @@ impl Prop for C09 {
                     }
                 }
                 let (tol, floor) = tol_floor(spec, s_scale);
-                match recovery(spec, &pa, &pb, &tail, floor, tol) {
+                match recovery(spec, &pa, &pb, &tail, floor, tol, stretch) {
                     Err(why) => out.stats.hit(&format!("skip.{}", why)),
                     Ok(rec) => {
                         out.hist = rec.hist;
@@ -406,7 +422,7 @@ impl Prop for C09 {
                                 let mut solo = node.clone();
                                 solo.kids[0] = Spec::echo();
                                 let (tl, fl) = tol_floor(&solo, s_scale);
-                                if let Ok(r2) = recovery(&solo, &pa, &pb, &tail, fl, tl) {
+                                if let Ok(r2) = recovery(&solo, &pa, &pb, &tail, fl, tl, stretch) {
                                     if r2.viol.is_some() {
                                         key = format!("{}{}", solo.k.name(), if solo.n <= 9 { "[n<=9]" } else { "[n>9]" });
                                         break;
@@ -511,7 +527,7 @@ impl Prop for C09 {
     }
 
     fn rule(&self) -> String {
-        "Views cycle systematically through Ema (default and sampled alpha), LaguerreFilter (gamma in {0,0.1..0.9,0.95}), SuperSmoother, RoofingFilter(N,M<=16), CyberCycle, TrendFlex, ReFlex, LaguerreRSI and EhlersFisherTransform over {Ema, Sma, Alma, SuperSmoother, LaguerreFilter}; 30% of runs are two-level chains of these, a quarter of which have a third level. N: 50% from the view's minimum to 9, 37% 10..64, 9% 128, 4% 1000. Mode 'recovery' (7 of 8 runs): two replicas of the same tree; one base stream of 0-400 values gets an independent fault realisation per replica (drop, duplicate, reorder, corrupt, spike bursts up to 500 S, up to 300 extra prefix values), then both receive the same persistently exciting tail inside [S/2,2S] (uniform noise, random walk or sinusoid+noise; exactly constant tails only for all-linear chains). Oracle: with T = T(view,N) from the documented pole radius, |out_A-out_B| <= tol*scale at every delivery from T to the end of the tail (2T, and in 1.5% of runs thousands to a million deliveries more) (tol 1e-9 linear, 1e-6 ratio-type; scale = max(S or output range, largest |out| in the window)). Mode 'bounded' (1 of 8): one replica, 1.4e5 (3%: 1.1e6; thorough 3e5, 8% 1.1e6) deliveries of a feed bounded by S in any of the 14 shapes; every output finite and within 1e6*S (linear) or the analytic bound 5 / 1 / ln199 (ratio-type). distinct = distinct (topology, feed lengths); non-trivial = prefixes actually differ and the window was compared, or a bounded run reached 1e5 deliveries."
+        "Views cycle systematically through Ema (default and sampled alpha), LaguerreFilter (gamma in {0,0.1..0.9,0.95}), SuperSmoother, RoofingFilter(N,M<=16), CyberCycle, TrendFlex, ReFlex, LaguerreRSI and EhlersFisherTransform over {Ema, Sma, Alma, SuperSmoother, LaguerreFilter}; 30% of runs are two-level chains of these, a quarter of which have a third level. N: 50% from the view's minimum to 9, 37% 10..64, 9% 128, 4% 1000. Mode 'recovery' (7 of 8 runs): two replicas of the same tree; one base stream of 0-400 values gets an independent fault realisation per replica (drop, duplicate, reorder, corrupt, spike bursts up to 500 S - in 15% of the runs 5e5..5e11 S, with the horizon stretched by one third per decade above 1e3 -, up to 300 extra prefix values; S from 1e-12 to 1e9), then both receive the same persistently exciting tail inside [S/2,2S] (uniform noise, random walk or sinusoid+noise; exactly constant tails only for all-linear chains). Oracle: with T = T(view,N) from the documented pole radius, |out_A-out_B| <= tol*scale at every delivery from T to the end of the tail (2T, and in 1.5% of runs thousands to a million deliveries more) (tol 1e-9 linear, 1e-6 ratio-type; scale = max(S or output range, largest |out| in the window)). Mode 'bounded' (1 of 8): one replica, 1.4e5 (3%: 1.1e6; thorough 3e5, 8% 1.1e6) deliveries of a feed bounded by S in any of the 14 shapes; every output finite and within 1e6*S (linear) or the analytic bound 5 / 1 / ln199 (ratio-type). distinct = distinct (topology, feed lengths); non-trivial = prefixes actually differ and the window was compared, or a bounded run reached 1e5 deliveries."
             .into()
     }
     fn assumptions(&self) -> Vec<String> {
